@@ -175,6 +175,8 @@ contract(
         ("entry-task", "implies(result > 0, self.slotTaskUsage[sb_idx][len(self.slotTaskUsage[sb_idx]) - 1][0] == task)"),
         ("entry-seconds", "implies(result > 0, self.slotTaskUsage[sb_idx][len(self.slotTaskUsage[sb_idx]) - 1][1] == D(self) - old(used(self, sb_idx)))"),
         ("frame", "forall(s, implies(s != sb_idx, used(self, s) == old(used(self, s)) and usage(self, s) == old(usage(self, s))))"),
+        # no other resource's ledger is touched
+        ("others", "forall(o, 'Ref:ResourceScenario', implies(o != self and old(RSsep(o, self)), LedgerSame(o) and RSsep(o, self)))"),
         # C02: a booking happens only in a slot the resource is on shift for
         ("on-shift", "implies(result > 0, old(OnShiftSpec(self, sb_idx)))"),
         # C03: effort credited = seconds taken x efficiency
